@@ -435,6 +435,12 @@ fn run_one(payload: &str) -> String {
         if configure(&mut b, cfg, ress, fns).is_none() {
             return "bad-case".into();
         }
+        // warm=<n>: the LAST n requests are issued once by this thread before the others start (so that some
+        // formatter kinds are already cached while others are first used concurrently by the threads' first requests)
+        let warm: usize = kv(cfg, "warm").parse().unwrap_or(0);
+        for r in reqs.iter().rev().take(warm) {
+            let _ = answer(&b, r, None);
+        }
         if threads > 1 && kv(cfg, "pool") == "1" {
             run_pooled(b, reqs, threads)
         } else if threads > 1 {
